@@ -17,6 +17,9 @@
 //	PassField f callee       recv.f of reference type (slice, pointer, map, chan, interface, func)
 //	                         or its address handed to a function / method
 //	PassRecv callee          the receiver itself handed on (or stored, returned, captured)
+//	UseArg a                 a parameter of reference type (pointer, slice, map, chan, interface, func, named type)
+//	                         is mentioned: memory the CALLER may share with other goroutines (e.g. a *bchutil.Tx
+//	                         with an unsynchronised memo) is touched at this point
 //	Global g                 a package-level variable g is mentioned (read, written, sliced, passed on): state
 //	                         shared by ALL values of the type, which the receiver's mutex does not guard
 //	Unsupported what         a construct the translator does not follow (go, select, goto, labels,
@@ -27,6 +30,11 @@
 //
 //	<t>_mutex_fields      the fields of type sync.Mutex / sync.RWMutex (Lock events do not name the
 //	                      mutex; the discipline is only meaningful if there is exactly one)
+//	<t>_field_inits       (function, field, parameters) for every initialisation of a reference-typed field of
+//	                      the type in a function that is not one of its methods (constructors): the reference-
+//	                      typed parameters of that function that flow into the stored value through assignments
+//	                      (not through len/cap, not through make/new, not through arguments of method calls on
+//	                      locals).  A non-empty list means the new value may ALIAS caller-owned memory.
 //	<t>_outside_accesses  for a type that has a mutex: (function, field) for every selector .field
 //	                      naming one of the type's fields in a function or method that is NOT a method
 //	                      of the type (such code bypasses the per-method discipline; composite literals
@@ -124,6 +132,7 @@ type walker struct {
 	recv    string
 	aliases map[string]string // local variable -> receiver field it was initialised from
 	locals  map[string]bool   // names declared inside the function (they shadow package-level variables)
+	refArgs map[string]bool   // parameters of reference type
 	maxIter int
 }
 
@@ -133,6 +142,174 @@ func (w *walker) global(name string) []event {
 		return []event{{kind: "Global", a: name}}
 	}
 	return nil
+}
+
+// refParams: the parameters of fd whose declared type is a reference type
+func refParams(fd *ast.FuncDecl) map[string]bool {
+	out := map[string]bool{}
+	if fd.Type.Params == nil {
+		return out
+	}
+	for _, f := range fd.Type.Params.List {
+		if isRefType(f.Type) {
+			for _, n := range f.Names {
+				if n.Name != "_" {
+					out[n.Name] = true
+				}
+			}
+		}
+	}
+	return out
+}
+
+// mentions: does e mention one of the names (outside len/cap arguments, and not at all if e is make/new)?
+func mentions(e ast.Expr, names map[string]bool) []string {
+	if c, ok := e.(*ast.CallExpr); ok {
+		if id, ok := c.Fun.(*ast.Ident); ok && (id.Name == "make" || id.Name == "new") {
+			return nil
+		}
+	}
+	seen := map[string]bool{}
+	var out []string
+	ast.Inspect(e, func(n ast.Node) bool {
+		if c, ok := n.(*ast.CallExpr); ok {
+			if id, ok := c.Fun.(*ast.Ident); ok && (id.Name == "len" || id.Name == "cap") {
+				return false
+			}
+		}
+		if id, ok := n.(*ast.Ident); ok && names[id.Name] && !seen[id.Name] {
+			seen[id.Name] = true
+			out = append(out, id.Name)
+		}
+		return true
+	})
+	return out
+}
+
+// fieldInits: initialisations of reference-typed fields of the type in the non-method function fd, each with the
+// reference-typed parameters that flow into the stored value (assignment-based taint, to a fixpoint)
+func fieldInits(ti *typeInfo, fname string, fd *ast.FuncDecl) [][3]string {
+	params := refParams(fd)
+	// taint[x] = set of parameters flowing into local x
+	taint := map[string]map[string]bool{}
+	for p := range params {
+		taint[p] = map[string]bool{p: true}
+	}
+	names := func() map[string]bool {
+		m := map[string]bool{}
+		for k := range taint {
+			m[k] = true
+		}
+		return m
+	}
+	flow := func(lhs []ast.Expr, rhs []ast.Expr) bool {
+		changed := false
+		for i, l := range lhs {
+			id, ok := l.(*ast.Ident)
+			if !ok || id.Name == "_" {
+				continue
+			}
+			var srcs []string
+			if len(lhs) == len(rhs) {
+				srcs = mentions(rhs[i], names())
+			} else {
+				for _, r := range rhs {
+					srcs = append(srcs, mentions(r, names())...)
+				}
+			}
+			for _, sname := range srcs {
+				for pname := range taint[sname] {
+					if taint[id.Name] == nil {
+						taint[id.Name] = map[string]bool{}
+					}
+					if !taint[id.Name][pname] {
+						taint[id.Name][pname] = true
+						changed = true
+					}
+				}
+			}
+		}
+		return changed
+	}
+	for changed := true; changed; {
+		changed = false
+		ast.Inspect(fd.Body, func(n ast.Node) bool {
+			switch t := n.(type) {
+			case *ast.AssignStmt:
+				if flow(t.Lhs, t.Rhs) {
+					changed = true
+				}
+			case *ast.ValueSpec:
+				var lhs []ast.Expr
+				for _, id := range t.Names {
+					lhs = append(lhs, id)
+				}
+				if len(t.Values) > 0 && flow(lhs, t.Values) {
+					changed = true
+				}
+			case *ast.RangeStmt:
+				var lhs []ast.Expr
+				for _, l := range []ast.Expr{t.Key, t.Value} {
+					if l != nil {
+						lhs = append(lhs, l)
+					}
+				}
+				if flow(lhs, []ast.Expr{t.X}) {
+					changed = true
+				}
+			}
+			return true
+		})
+	}
+	paramsOf := func(e ast.Expr) string {
+		set := map[string]bool{}
+		for _, sname := range mentions(e, names()) {
+			for pname := range taint[sname] {
+				set[pname] = true
+			}
+		}
+		var ps []string
+		for pname := range set {
+			ps = append(ps, pname)
+		}
+		sort.Strings(ps)
+		return strings.Join(ps, ",")
+	}
+	var out [][3]string
+	ast.Inspect(fd.Body, func(n ast.Node) bool {
+		switch t := n.(type) {
+		case *ast.AssignStmt:
+			for i, l := range t.Lhs {
+				if se, ok := l.(*ast.SelectorExpr); ok && ti.refField[se.Sel.Name] {
+					var r ast.Expr
+					if len(t.Lhs) == len(t.Rhs) {
+						r = t.Rhs[i]
+					} else if len(t.Rhs) == 1 {
+						r = t.Rhs[0]
+					}
+					if r != nil {
+						out = append(out, [3]string{fname, se.Sel.Name, paramsOf(r)})
+					}
+				}
+			}
+		case *ast.CompositeLit:
+			isT := false
+			if id, ok := t.Type.(*ast.Ident); ok && id.Name == ti.name {
+				isT = true
+			}
+			if isT {
+				for _, el := range t.Elts {
+					if kv, ok := el.(*ast.KeyValueExpr); ok {
+						if id, ok := kv.Key.(*ast.Ident); ok && ti.refField[id.Name] {
+							out = append(out, [3]string{fname, id.Name, paramsOf(kv.Value)})
+						}
+					}
+				}
+			}
+		}
+		return true
+	})
+	return out
 }
 
 // localNames: every name a function declares (parameters, results, :=, var, range, type switch)
@@ -317,6 +494,9 @@ func (w *walker) expr(e ast.Expr) []event {
 	case *ast.Ident:
 		if t.Name == w.recv {
 			return []event{{kind: "PassRecv", a: "receiver used as a value"}}
+		}
+		if w.refArgs[t.Name] {
+			return []event{{kind: "UseArg", a: t.Name}}
 		}
 		return w.global(t.Name)
 	case *ast.BasicLit:
@@ -858,6 +1038,7 @@ type analysis struct {
 	files   []string    // files read
 	mutexes []string    // mutex fields of the type, sorted
 	outside [][2]string // (function, field): selectors naming a field of the type outside its methods
+	inits   [][3]string // (function, field, comma-separated parameters): see fieldInits
 }
 
 func analyse(dir, typeName string) (*analysis, error) {
@@ -931,6 +1112,7 @@ func analyse(dir, typeName string) (*analysis, error) {
 	}
 	// package-level variables, and accesses to the type's fields from outside its methods
 	var outside [][2]string
+	var inits [][3]string
 	seenOut := map[[2]string]bool{}
 	for _, f := range files {
 		for _, d := range f.Decls {
@@ -948,15 +1130,16 @@ func analyse(dir, typeName string) (*analysis, error) {
 					}
 				}
 			case *ast.FuncDecl:
-				if tn, _ := recvTypeName(t); tn == typeName || t.Body == nil || len(ti.mutexes) == 0 {
+				if tn, _ := recvTypeName(t); tn == typeName || t.Body == nil {
 					continue
 				}
 				fname := t.Name.Name
 				if tn, _ := recvTypeName(t); tn != "" {
 					fname = tn + "." + fname
 				}
+				inits = append(inits, fieldInits(ti, fname, t)...)
 				ast.Inspect(t.Body, func(n ast.Node) bool {
-					if se, ok := n.(*ast.SelectorExpr); ok && ti.fields[se.Sel.Name] {
+					if se, ok := n.(*ast.SelectorExpr); ok && ti.fields[se.Sel.Name] && len(ti.mutexes) > 0 {
 						k := [2]string{fname, se.Sel.Name}
 						if !seenOut[k] {
 							seenOut[k] = true
@@ -988,7 +1171,7 @@ func analyse(dir, typeName string) (*analysis, error) {
 	for i, n := range names {
 		fd := ti.methods[n]
 		_, recv := recvTypeName(fd)
-		w := &walker{ti: ti, recv: recv, aliases: map[string]string{}, locals: localNames(fd), maxIter: maxIterUnexported}
+		w := &walker{ti: ti, recv: recv, aliases: map[string]string{}, locals: localNames(fd), refArgs: refParams(fd), maxIter: maxIterUnexported}
 		if ast.IsExported(n) {
 			w.maxIter = maxIterExported
 		}
@@ -1023,7 +1206,7 @@ func analyse(dir, typeName string) (*analysis, error) {
 		}
 		sb.WriteString("\n")
 	}
-	return &analysis{body: sb.String(), files: fileNames, mutexes: mutexes, outside: outside}, nil
+	return &analysis{body: sb.String(), files: fileNames, mutexes: mutexes, outside: outside, inits: inits}, nil
 }
 
 func main() {
@@ -1057,6 +1240,18 @@ func main() {
 		sb.WriteString(fmt.Sprintf("Definition %s_mutex_fields : list string := [%s].\n\n", prefix, strings.Join(ms, "; ")))
 		sb.WriteString(fmt.Sprintf("(* (function, field): selectors naming a field of %s.%s in code that is not one of its methods (only listed when the type has a mutex) *)\n", t.dir, t.typ))
 		sb.WriteString(fmt.Sprintf("Definition %s_outside_accesses : list (string * string) := [%s].\n\n", prefix, strings.Join(os_, "; ")))
+		var is_ []string
+		for _, in := range an.inits {
+			var ps []string
+			if in[2] != "" {
+				for _, pn := range strings.Split(in[2], ",") {
+					ps = append(ps, q(pn))
+				}
+			}
+			is_ = append(is_, "("+q(in[0])+", "+q(in[1])+", ["+strings.Join(ps, "; ")+"])")
+		}
+		sb.WriteString(fmt.Sprintf("(* (function, field, reference-typed parameters flowing into the stored value) for every initialisation of a reference-typed field of %s.%s outside its methods *)\n", t.dir, t.typ))
+		sb.WriteString(fmt.Sprintf("Definition %s_field_inits : list (string * string * list string) := [%s].\n\n", prefix, strings.Join(is_, ";\n  ")))
 	}
 	new := []byte(sb.String())
 	if old, err := os.ReadFile(*out); err == nil && bytes.Equal(old, new) {
